@@ -224,6 +224,16 @@ def scene(magpy, r, variant):
     return sources, sensors
 
 
+OPTION_SETS = [{}, {}, {"in_out": "inside"}, {}, {"pixel_agg": "max"}, {"pixel_agg": "mean"}, {"in_out": "outside", "pixel_agg": "mean"}, {}, {"in_out": "inside", "pixel_agg": "min"}]
+
+
+def mesh_source(magpy, r, n):
+    pos = np.array([[r.uniform(-1, 1) for _ in range(3)] for _ in range(n)])
+    q = np.array([[r.gauss(0, 1) for _ in range(4)] for _ in range(n)])
+    return magpy.magnet.TriangularMesh(vertices=CUBE_V * np.array([0.7, 0.6, 0.5]), faces=CUBE_F, polarization=(0.2, -0.1, 0.3), position=pos,
+                                       orientation=R.from_quat(q / np.linalg.norm(q, axis=1)[:, None]))
+
+
 def nested(a):
     return np.asarray(a, dtype=float)
 
@@ -238,31 +248,46 @@ def form_events(args):
         base = max(0, tid0 // 1_000_000 - 100) * nvar          # every worker covers its own range of variants
         for variant in range(base, base + nvar):
             sources, sensors = scene(magpy, r, variant)
-            for field in ("B", "H", "J", "M")[: 2 + variant % 3]:
-                top = {"B": magpy.getB, "H": magpy.getH, "J": magpy.getJ, "M": magpy.getM}[field]
+            # the OPTIONS of a computation are part of it: every interface, given the same non-default pixel_agg / in_out, returns the same
+            # numbers (option sets rotate over the variants; with in_out one source is a TriangularMesh - the sensors lie outside every body,
+            # so a forced "inside" differs from the automatic classification and an interface that drops the option is seen)
+            opts = OPTION_SETS[variant % len(OPTION_SETS)]
+            if "in_out" in opts:
+                sources[variant % len(sources)] = mesh_source(magpy, r, 1 + variant % 3)
+            fields_here = ("B", "H", "J", "M")[: 2 + variant % 3] if not opts else (("J", "B", "M", "H") if "in_out" in opts else ("B", "H"))[: 2 + variant % 2]
+            tag = "".join(f":{k_}={v_}" for k_, v_ in sorted(opts.items()))
+            for field in fields_here:
+                top0 = {"B": magpy.getB, "H": magpy.getH, "J": magpy.getJ, "M": magpy.getM}[field]
                 meth = "get" + field
+                top = lambda *a, _t=top0, **k: _t(*a, **{**opts, **k})
+                om = lambda o_, *a, **k: getattr(o_, meth)(*a, **{**opts, **k})           # the method form of object o_ with the same options
                 T = np.asarray(top(sources, sensors, squeeze=False), dtype=float)        # (L, M, K, P, 3)
                 L, Mx, K, P, _ = T.shape
                 alts = []
                 alts.append(("top_squeeze", 0, 0, lambda: top(sources, sensors), TOL_SAME))
                 alts.append(("sumup", 0, 0, lambda: top(sources, sensors, sumup=True, squeeze=False), TOL_SAME))
                 # options by POSITION in the documented order (sources, observers, sumup, squeeze, pixel_agg, output, in_out)
-                alts.append(("sumup_positional", 0, 0, lambda: top(sources, sensors, True, False), TOL_SAME))
-                alts.append(("top_positional", 0, 0, lambda: top(sources, sensors, False, True, None, "ndarray", "auto"), TOL_SAME))
+                alts.append(("sumup_positional", 0, 0, lambda: top0(sources, sensors, True, False, opts.get("pixel_agg"), "ndarray", opts.get("in_out", "auto")), TOL_SAME))
+                alts.append(("top_positional", 0, 0, lambda: top0(sources, sensors, False, True, opts.get("pixel_agg"), "ndarray", opts.get("in_out", "auto")), TOL_SAME))
                 for l in range(L):
-                    alts.append(("src_method", l + 1, 0, (lambda l=l: getattr(sources[l], meth)(*sensors, squeeze=False)), TOL_SAME))
+                    alts.append(("src_method", l + 1, 0, (lambda l=l: om(sources[l], *sensors, squeeze=False)), TOL_SAME))
                 for k in range(K):
-                    alts.append(("sens_method", 0, k + 1, (lambda k=k: getattr(sensors[k], meth)(*sources, squeeze=False)), TOL_SAME))
+                    alts.append(("sens_method", 0, k + 1, (lambda k=k: om(sensors[k], *sources, squeeze=False)), TOL_SAME))
                 for k in range(K):
-                    alts.append(("sens_method_sumup", 0, k + 1, (lambda k=k: getattr(sensors[k], meth)(*sources, sumup=True, squeeze=False)), TOL_SAME))
-                alts.append(("coll_src", 0, 0, lambda: _coll(magpy, sources, meth, sensors), TOL_SAME))
-                alts.append(("coll_sens", 0, 0, lambda: _coll(magpy, sensors, meth, sources), TOL_SAME))
-                alts.append(("coll_both", 0, 0, lambda: _coll(magpy, sources + sensors, meth, []), TOL_SAME))
-                alts.append(("dataframe", 0, 0, lambda: top(sources, sensors, output="dataframe"), TOL_SAME))
+                    alts.append(("sens_method_sumup", 0, k + 1, (lambda k=k: om(sensors[k], *sources, sumup=True, squeeze=False)), TOL_SAME))
+                # a Collection is ONE source: its methods take no in_out, and its aggregated field is agg(sum), which equals the sum of the
+                # aggregated fields of its members only for a linear aggregation - the collection forms are the same computation for
+                # pixel_agg in {None, mean} without in_out
+                if "in_out" not in opts and opts.get("pixel_agg") in (None, "mean"):
+                    alts.append(("coll_src", 0, 0, lambda: _coll(magpy, sources, meth, sensors, opts), TOL_SAME))
+                    alts.append(("coll_both", 0, 0, lambda: _coll(magpy, sources + sensors, meth, [], opts), TOL_SAME))
+                    alts.append(("coll_sens", 0, 0, lambda: _coll(magpy, sensors, meth, sources, opts), TOL_SAME))
+                if "pixel_agg" not in opts:             # with an aggregation the pixel column of the dataframe is not an index
+                    alts.append(("dataframe", 0, 0, lambda: top(sources, sensors, output="dataframe"), TOL_SAME))
                 s = quant.gross(T, np.sum(T, axis=0))
                 Tq = quant.q12(T, s)
                 for form, l, k, call, tol in alts:
-                    ev = {"tid": tid0 + n, "kind": "form", "what": form, "form": form, "field": field, "l": max(l, 1), "k": max(k, 1), "T": Tq, "alt": [], "index": [], "outcome": "ok", "tol": tol, "malt": int(Mx)}
+                    ev = {"tid": tid0 + n, "kind": "form", "what": form + tag, "form": form, "field": field, "l": max(l, 1), "k": max(k, 1), "T": Tq, "alt": [], "index": [], "outcome": "ok", "tol": tol, "malt": int(Mx)}
                     try:
                         out = call()
                         if form == "dataframe":
@@ -285,10 +310,10 @@ def form_events(args):
     return n
 
 
-def _coll(magpy, members, meth, inputs):
+def _coll(magpy, members, meth, inputs, opts=None):
     c = magpy.Collection(*members, override_parent=True)
     try:
-        return getattr(c, meth)(*inputs, squeeze=False)
+        return getattr(c, meth)(*inputs, squeeze=False, **(opts or {}))
     finally:
         for m_ in list(c.children):
             c.remove(m_)
